@@ -301,16 +301,19 @@ Definition sp_drain (c : cfg) (st : astate) (nx : N) (v : nat) (sb eb : bound) (
     created or destroyed; a refused offer destroys it once and unwinds: the iterator is dropped where it stands) or
     leaked ([KForget]).  The state of the other vectors therefore changes while the iterator is alive. *)
 Inductive wres :=
-| WDone (rets : list N) (evs : list event) (i j : nat) (st : astate) (lost : list N)
-| WStop (p : panic) (evs : list event) (i j : nat) (st : astate) (lost : list N).
+| WDone (rets : list N) (evs : list event) (i j : nat) (st : astate) (lost : list N) (nx : N)
+| WStop (p : panic) (evs : list event) (i j : nat) (st : astate) (lost : list N) (nx : N).
 
-(** one item with value [t]: what the caller sees, the events, the other vectors, the values leaked - or the panic *)
-Definition sp_item (c : cfg) (v : nat) (st : astate) (t : N) (sk : sink)
-  : option ((list N * list event * astate * list N) + (panic * list event)) :=
+(** one item with value [t]: what the caller sees, the events, the other vectors, the values leaked and the next
+    identity - or the panic.  Before the item goes anywhere lazy clones of it may be downcast ([KLazyDown]: a new
+    value each time, destroyed by the caller) or pushed into another vector ([KLazy]; a refused push unwinds: the
+    item is destroyed, the clones already pushed stay). *)
+Fixpoint sp_item (c : cfg) (v : nat) (st : astate) (nx : N) (t : N) (sk : sink)
+  : option ((list N * list event * astate * list N * N) + (panic * list event * astate * N)) :=
   match sk with
-  | KDrop | KSkip => Some (inl ([], drop_ev c t, st, []))
-  | KDown => Some (inl ([t], drop_ev c t, st, []))
-  | KForget => Some (inl ([], [], st, [t]))
+  | KDrop | KSkip => Some (inl ([], drop_ev c t, st, [], nx))
+  | KDown => Some (inl ([t], drop_ev c t, st, [], nx))
+  | KForget => Some (inl ([], [], st, [t], nx))
   | KPush dst | KIns dst _ =>
       if Nat.eqb dst v then None
       else match get_a dst st with
@@ -318,21 +321,45 @@ Definition sp_item (c : cfg) (v : nat) (st : astate) (t : N) (sk : sink)
            | Some b =>
                let di := match sk with KIns _ j => Some j | _ => None end in
                match put_value c b di t with
-               | inl ys' => Some (inl ([], [], set_a dst (Some (with_xs b ys')) st, []))
-               | inr p => Some (inr (p, drop_ev c t))
+               | inl ys' => Some (inl ([], [], set_a dst (Some (with_xs b ys')) st, [], nx))
+               | inr p => Some (inr (p, drop_ev c t, st, nx))
                end
            end
-  | _ => None
+  | KLazyDown n sk' =>
+      let ids := next_ids c nx (N.to_nat n) in
+      let cl := flat_map (fun id => EClone t id :: drop_ev c id) ids in
+      match sp_item c v st (nx + n) t sk' with
+      | Some (inl (out, evs, st1, lost, nx1)) => Some (inl (ids ++ out, cl ++ evs, st1, lost, nx1))
+      | Some (inr (p, evs, st1, nx1)) => Some (inr (p, cl ++ evs, st1, nx1))
+      | None => None
+      end
+  | KLazy n dst sk' =>
+      if Nat.eqb dst v then None
+      else match get_a dst st with
+           | None => None
+           | Some b =>
+               let '(b', evs, nx', ok) := sp_lazy_pushes c b t nx (N.to_nat n) in
+               let st1 := set_a dst (Some b') st in
+               if ok then
+                 match sp_item c v st1 nx' t sk' with
+                 | Some (inl (out, evs2, st2, lost, nx2)) => Some (inl (out, evs ++ evs2, st2, lost, nx2))
+                 | Some (inr (p, evs2, st2, nx2)) => Some (inr (p, evs ++ evs2, st2, nx2))
+                 | None => None
+                 end
+               else Some (inr (PCapacity, evs ++ drop_ev c t, st1, nx'))
+           end
+  | KMut _ => None
   end.
 
-Fixpoint sp_walk_mv (c : cfg) (v : nat) (xs : list N) (pat : list (bool * sink)) (i j : nat) (st : astate) : option wres :=
+Fixpoint sp_walk_mv (c : cfg) (v : nat) (xs : list N) (pat : list (bool * sink)) (i j : nat) (st : astate) (nx : N)
+  : option wres :=
   match pat with
-  | [] => Some (WDone [] [] i j st [])
+  | [] => Some (WDone [] [] i j st [] nx)
   | (front, sk) :: rest =>
       if (i =? j)%nat then
-        match sp_walk_mv c v xs rest i j st with
-        | Some (WDone rets evs i' j' st' lost) =>
-            Some (WDone (match sk with KSkip => rets | _ => 0 :: 0 :: N.of_nat (j - i) :: rets end) evs i' j' st' lost)
+        match sp_walk_mv c v xs rest i j st nx with
+        | Some (WDone rets evs i' j' st' lost nx') =>
+            Some (WDone (match sk with KSkip => rets | _ => 0 :: 0 :: N.of_nat (j - i) :: rets end) evs i' j' st' lost nx')
         | r => r
         end
       else
@@ -340,15 +367,15 @@ Fixpoint sp_walk_mv (c : cfg) (v : nat) (xs : list N) (pat : list (bool * sink))
         let i1 := if front then S i else i in
         let j1 := if front then j else (j - 1)%nat in
         let t := nth idx xs 0 in
-        match sp_item c v st t sk with
+        match sp_item c v st nx t sk with
         | None => None
-        | Some (inr (p, evs0)) => Some (WStop p evs0 i1 j1 st [])
-        | Some (inl (out, evs0, st1, lost0)) =>
-            match sp_walk_mv c v xs rest i1 j1 st1 with
-            | Some (WDone rets evs i' j' st' lost) =>
+        | Some (inr (p, evs0, st1, nx1)) => Some (WStop p evs0 i1 j1 st1 [] nx1)
+        | Some (inl (out, evs0, st1, lost0, nx1)) =>
+            match sp_walk_mv c v xs rest i1 j1 st1 nx1 with
+            | Some (WDone rets evs i' j' st' lost nx') =>
                 Some (WDone (match sk with KSkip => rets | _ => 1 :: t :: N.of_nat (j1 - i1) :: out ++ rets end)
-                            (evs0 ++ evs) i' j' st' (lost0 ++ lost))
-            | Some (WStop p evs i' j' st' lost) => Some (WStop p (evs0 ++ evs) i' j' st' (lost0 ++ lost))
+                            (evs0 ++ evs) i' j' st' (lost0 ++ lost) nx')
+            | Some (WStop p evs i' j' st' lost nx') => Some (WStop p (evs0 ++ evs) i' j' st' (lost0 ++ lost) nx')
             | None => None
             end
         end
@@ -368,16 +395,16 @@ Definition sp_drain_mv (c : cfg) (st : astate) (nx : N) (v : nat) (sb eb : bound
           let hidden := set_a v (Some (with_xs a (firstn s xs))) st in
           let rest_drops i j := if c_dg c then map EDrop (firstn (j - i) (skipn i xs)) else [] in
           let closed st' := set_a v (Some (with_xs a (VecSpec.sp_drain s e xs))) st' in
-          match sp_walk_mv c v xs pat s e hidden with
+          match sp_walk_mv c v xs pat s e hidden nx with
           | None => None
-          | Some (WDone rets evs i j st' _) =>
+          | Some (WDone rets evs i j st' _ nx') =>
               match f with
-              | FinDrop => Some (ok_res (N.of_nat (e - s) :: rets) (evs ++ rest_drops i j) (closed st') nx)
-              | FinForget => Some (ok_res (N.of_nat (e - s) :: rets) evs st' nx)
+              | FinDrop => Some (ok_res (N.of_nat (e - s) :: rets) (evs ++ rest_drops i j) (closed st') nx')
+              | FinForget => Some (ok_res (N.of_nat (e - s) :: rets) evs st' nx')
               end
-          | Some (WStop p evs i j st' _) =>
+          | Some (WStop p evs i j st' _ nx') =>
               (* a refused move unwinds through the iterator: it is dropped whatever the caller meant to do with it *)
-              Some (panic_res p (evs ++ rest_drops i j) (closed st') nx)
+              Some (panic_res p (evs ++ rest_drops i j) (closed st') nx')
           end
       end
   end.
@@ -491,22 +518,22 @@ Definition sp_splice_mv0 (c : cfg) (st : astate) (nx : N) (v : nat) (sb eb : bou
       | Some (s, e) =>
           let s := N.to_nat s in let e := N.to_nat e in
           let hidden := set_a v (Some (with_xs a (firstn s xs))) st in
-          match sp_walk_mv c v xs pat s e hidden with
+          match sp_walk_mv c v xs pat s e hidden nx' with
           | None => None
-          | Some (WDone rets evs i j st' _) =>
+          | Some (WDone rets evs i j st' _ nx2) =>
               match f with
-              | FinForget => Some (ok_res (N.of_nat (e - s) :: rets) evs st' nx')
+              | FinForget => Some (ok_res (N.of_nat (e - s) :: rets) evs st' nx2)
               | FinDrop =>
                   match sp_splice_fin c a s e i j ts claimed n with
-                  | inl p => Some (panic_res p (evs ++ item_drops) st' nx')
+                  | inl p => Some (panic_res p (evs ++ item_drops) st' nx2)
                   | inr (fevs, ys) =>
-                      Some (ok_res (N.of_nat (e - s) :: rets) (evs ++ fevs) (set_a v (Some (with_xs a ys)) st') nx')
+                      Some (ok_res (N.of_nat (e - s) :: rets) (evs ++ fevs) (set_a v (Some (with_xs a ys)) st') nx2)
                   end
               end
-          | Some (WStop p evs i j st' _) =>
+          | Some (WStop p evs i j st' _ nx2) =>
               match sp_splice_fin c a s e i j ts claimed n with
               | inl _ => None
-              | inr (fevs, ys) => Some (panic_res p (evs ++ fevs) (set_a v (Some (with_xs a ys)) st') nx')
+              | inr (fevs, ys) => Some (panic_res p (evs ++ fevs) (set_a v (Some (with_xs a ys)) st') nx2)
               end
           end
       end
